@@ -251,6 +251,43 @@ pub(super) fn wb_descend(mv: &Move, extension: usize) {
     }
 }
 
+// ---- thread-level events of the UCI front end -------------------------------------------------
+// One stderr line per blocking point of the session's threads, numbered by one process-wide
+// counter. A producer logs *before* it sends, drops or exits; a consumer logs *after* it has
+// received or joined - so the logged order never contradicts the causal order.
+
+static THREAD_SEQ: AtomicUsize = AtomicUsize::new(0);
+static SEARCH_IDS: AtomicUsize = AtomicUsize::new(0);
+
+fn thread_events_on() -> bool {
+    static ON: std::sync::OnceLock<bool> = std::sync::OnceLock::new();
+    *ON.get_or_init(|| std::env::var_os("WEECHESS_VERIF_THREADS").is_some())
+}
+
+pub fn next_search_id() -> usize {
+    SEARCH_IDS.fetch_add(1, Ordering::SeqCst) + 1
+}
+
+pub fn last_search_id() -> usize {
+    SEARCH_IDS.load(Ordering::SeqCst)
+}
+
+/// Logs its event when dropped: for a point that follows a block's tail expression.
+pub struct ThreadEventOnDrop(pub &'static str, pub usize);
+
+impl Drop for ThreadEventOnDrop {
+    fn drop(&mut self) {
+        thread_event(self.0, self.1);
+    }
+}
+
+pub fn thread_event(action: &str, search: usize) {
+    if thread_events_on() {
+        let seq = THREAD_SEQ.fetch_add(1, Ordering::SeqCst);
+        eprintln!("verif {{\"ev\":\"Thread\",\"seq\":{},\"a\":\"{}\",\"s\":{}}}", seq, action, search);
+    }
+}
+
 // ---- sampled quiescence events ---------------------------------------------------------------
 // Every `QS_EVERY`-th capture search started below the horizon is logged node by node (at most
 // `QS_BUDGET` events per thread and search; when it runs out inside one, `QAbandon` is logged and
